@@ -229,7 +229,13 @@ func (d *V1) Exec(cmd *Cmd) (o Outcome) {
 	case "Create":
 		return d.create(cmd)
 	case "Drop":
-		out, err := d.cl.DeleteTable(&dynamodb.DeleteTableInput{TableName: aws.String(cmd.T)})
+		din := &dynamodb.DeleteTableInput{TableName: aws.String(cmd.T)}
+		out, err := func() (*dynamodb.DeleteTableOutput, error) {
+			if cmd.ID%2 == 1 {
+				return d.cl.DeleteTableWithContext(bg1, din)
+			}
+			return d.cl.DeleteTable(din)
+		}()
 		d.classify(err, &o)
 		if err == nil {
 			o.Desc = descFromV1(out.TableDescription)
@@ -237,7 +243,14 @@ func (d *V1) Exec(cmd *Cmd) (o Outcome) {
 	case "Clear":
 		d.classify(v1.ClearTable(d.cl, cmd.T), &o)
 	case "Describe":
-		out, err := d.cl.DescribeTable(&dynamodb.DescribeTableInput{TableName: aws.String(cmd.T)})
+		din := &dynamodb.DescribeTableInput{TableName: aws.String(cmd.T)}
+		out, err := func() (*dynamodb.DescribeTableOutput, error) {
+			// (observer reads carry the id -1: the context variant too)
+			if cmd.ID%2 != 0 {
+				return d.cl.DescribeTableWithContext(bg1, din)
+			}
+			return d.cl.DescribeTable(din)
+		}()
 		d.classify(err, &o)
 		if err == nil {
 			o.Desc = descFromV1(out.Table)
@@ -245,8 +258,14 @@ func (d *V1) Exec(cmd *Cmd) (o Outcome) {
 	case "IndexCreate":
 		return d.indexCreate(cmd)
 	case "IndexDrop":
-		out, err := d.cl.UpdateTable(&dynamodb.UpdateTableInput{TableName: aws.String(cmd.T),
-			GlobalSecondaryIndexUpdates: []*dynamodb.GlobalSecondaryIndexUpdate{{Delete: &dynamodb.DeleteGlobalSecondaryIndexAction{IndexName: aws.String(cmd.Index)}}}})
+		uin := &dynamodb.UpdateTableInput{TableName: aws.String(cmd.T),
+			GlobalSecondaryIndexUpdates: []*dynamodb.GlobalSecondaryIndexUpdate{{Delete: &dynamodb.DeleteGlobalSecondaryIndexAction{IndexName: aws.String(cmd.Index)}}}}
+		out, err := func() (*dynamodb.UpdateTableOutput, error) {
+			if cmd.ID%2 == 1 {
+				return d.cl.UpdateTableWithContext(bg1, uin)
+			}
+			return d.cl.UpdateTable(uin)
+		}()
 		d.classify(err, &o)
 		if err == nil {
 			o.Desc = descFromV1(out.TableDescription)
@@ -299,6 +318,9 @@ func (d *V1) Exec(cmd *Cmd) (o Outcome) {
 		}
 		if cmd.Native == "debug" {
 			d.cl.ActivateDebug()
+		}
+		if cmd.Native == "metrics" {
+			v1.SetItemCollectionMetrics(d.cl, map[string][]*dynamodb.ItemCollectionMetrics{})
 		}
 		if cmd.Native == "updater-panic" {
 			d.cl.GetNativeInterpreter().AddUpdater(cmd.T, UpdText(cmd), func(item, _ map[string]*mtypes.Item) {
